@@ -234,3 +234,21 @@ package decorator
 //@ ensures nothing_after_failed_write: forall j int :: 0 <= j && j + 1 < nwrites - old(nwrites) ==> wok(old(nwrites) + j)
 //@ loop 1 invariant count: nwrites == entry(nwrites) + $i && 0 <= $i && $i <= len(p.Syntax)
 //@ loop 1 invariant names: forall j int :: 0 <= j && j < $i ==> wname(entry(nwrites) + j) == p.Decorator.Filenames[p.Syntax[j]] && wperm(entry(nwrites) + j) == 438 && wok(entry(nwrites) + j)
+
+// ---------------------------------------------------------------------------------------------
+// RestoreFile (restorer.go)
+
+// Assumed for now (its body is not yet under contract): import management edits the dst tree and the
+// restorer's package-name table only; it does not touch the position state, the node maps or the file set.
+//@ func (r *FileRestorer) updateImports
+//@ trusted
+//@ modifies allbut(heap(FileRestorer.cursor); heap(FileRestorer.lines); heap(FileRestorer.comments); heap(FileRestorer.cursorAtNewLine); heap(FileRestorer.base); heap(FileRestorer.Restorer); heap(FileRestorer.file); heap(FileRestorer.Name); heap(Restorer.Fset); heap(Restorer.Extras); heap(Restorer.Map); heap(token.FileSet.base); elems(int); elems(*ast.CommentGroup); map(dst.Node, ast.Node); map(ast.Node, dst.Node))
+
+//@ func (r *FileRestorer) RestoreFile
+//@ requires restorer: r.Restorer != nil && r.Ast.Nodes != nil && r.Dst.Nodes != nil
+//@ requires maps: r.mapsInv()
+//@ assumes fileset_base_positive: forall s *token.FileSet :: s.base >= 1
+//@ loop 2 invariant inv: r.inv()
+//@ loop 2 invariant maps: r.mapsInv()
+//@ loop 3 invariant inv: r.inv()
+//@ loop 3 invariant maps: r.mapsInv()
